@@ -312,6 +312,29 @@ def run(ctx):
     # from ArxmlFileRaw.version on EVERY path before the text is produced (set_version() itself only stores the version)
     C.rule('C17-MUST-header', 'ArxmlFile::serialize calls AutosarModelRaw::set_version(self.version) on every path before Element::serialize_internal: after a successful set_version() the serialized header always names the new version (no conditional / try-lock around the update)')
     header_rule(C, P, 'C17-MUST-header')
+    # the header written after a version change names a schema file that the loader maps back to the same version: filename() and
+    # from_str() are inverse on all versions (the table rule of C18, as a clause of "the file loads as that version afterwards")
+    C.rule('C17-DATA-version', 'AutosarVersion::filename is injective and from_str(filename(v)) = v for every version (shared with C18-DATA-version)')
+    import json as _json, os as _os
+    from c18 import version_rules as _vr
+
+    class _Proxy:
+        def __init__(self, c):
+            self._c = c
+        def __getattr__(self, k):
+            f = getattr(self._c, k)
+            if k in ('check', 'fail', 'ok', 'anchor_missing'):
+                def g(*a, **kw):
+                    a = list(a)
+                    for i, x in enumerate(a):
+                        if isinstance(x, str) and x == 'C18-DATA-version':
+                            a[i] = 'C17-DATA-version'
+                    return f(*a, **kw)
+                return g
+            if k == 'floor':
+                return lambda name, n, fl: f(name.replace('C18-', 'C17-'), n, fl)
+            return f
+    _vr(_Proxy(C), _json.load(open(_os.path.join(ctx['facts'], 'syn.json')))['files'])
     return C.finish('Sibling agreement between the validator and the compatibility walk on the version columns (which accessors each calls on every acceptance path), '
                     'the gate on ArxmlFileRaw.version, and the accumulation of the returned mask. Does not decide the iff between "no incompatibility" and strict validation for all documents x 21^2 version pairs.')
 
